@@ -1303,7 +1303,13 @@ fn write_central_directory_header<T: Write>(writer: &mut T, file: &ZipFileData) 
     // file name length
     writer.write_u16::<LittleEndian>(file.file_name.as_bytes().len() as u16)?;
     // extra field length
-    writer.write_u16::<LittleEndian>(zip64_extra_field_length + file.extra_field.len() as u16)?;
+    let extra_field_length = u16::try_from(file.extra_field.len())
+        .ok()
+        .and_then(|len| len.checked_add(zip64_extra_field_length))
+        .ok_or(ZipError::InvalidArchive(
+            "Extra data exceeds extra field",
+        ))?;
+    writer.write_u16::<LittleEndian>(extra_field_length)?;
     // file comment length
     writer.write_u16::<LittleEndian>(0)?;
     // disk number start
